@@ -28,6 +28,7 @@ package main
 import (
 	"bytes"
 	"fmt"
+	"math"
 	"math/big"
 	"sort"
 	"strings"
@@ -49,10 +50,10 @@ const (
 	start = 18823000 // utils.CheckRouterStartBlock: HARMONY/HSC/BYTOM routers on main net
 	late  = start
 	early = start - 1
-	A     = 21
-	B     = 22
-	C     = 23
-	R     = 24 // RIPPLE-router chain: a non-account-based DESTINATION (ripple.MakeTransaction builds the payment)
+	A     = uint64(0)              // chain id 0 is registrable: source, destination and blacklist subject
+	B     = uint64(math.MaxUint64) // 9-byte var-uint chain id
+	C     = uint64(1)
+	R     = uint64(24) // RIPPLE-router chain: a non-account-based DESTINATION (ripple.MakeTransaction builds the payment)
 	nVal  = 4
 	maxK  = 7
 )
@@ -488,6 +489,6 @@ func main() {
 		"rule":   "release ⇔ source,target registered ∧ neither blacklisted ∧ source router active at the tx height; rejected completing tx fails with unchanged dump",
 		"states": st.States, "transitions": st.Transitions, "traces_validated_against_impl": st.Transitions, "max_depth": st.MaxDepth,
 		"per_depth": st.PerDepth, "initial_states": []string{"nothing registered (applications pending)", "A,B,C registered"},
-		"network": "main net; heights 18822999 / 18823000; routers: vote (A,B), hsc (C)",
+		"network": "main net; heights 18822999 / 18823000; routers: vote (A = chain 0, B = chain MaxUint64), hsc (C = chain 1), ripple destination (R = chain 24)",
 	})
 }
